@@ -148,23 +148,7 @@ def check_config(ctx, F, tag):
     ctx.floor("unchecked-mutator-call-sites" + tag, 5)
 
     # ---------------- R3 co-mutation
-    for adt, a, partner in ((RB, "len", "run"), (SB, "len", "next")):
-        n = 0
-        for b in F.all_bodies():
-            trig = field_store_blocks(b, adt, a)
-            if not trig:
-                continue
-            part = [bi for bi, _, _ in field_store_blocks(b, adt, partner)]
-            storers = must_store_fns(F, adt, partner)
-            after_calls = [ci for ci, t in b.calls() if callee_name(t) in storers and t["args"] and core(b.term_of_operand(t["args"][0]))[:2] == ("param", 0)]
-            for k, (bi, si, st) in enumerate(trig):
-                n += 1
-                ok = comutated_ip(b, bi, part, after_calls)
-                ctx.ob("C16.R3.co-mutation", "%s|%s.%s~%s#%d%s" % (b.name, adt.split("::")[-1], a, partner, k, tag), loc(st["sp"]), ok, "co-mutation",
-                       "store to %s.%s %s a direct store to .%s on the same path (a callee counts only if it runs after the store and stores .%s on all of its paths)" % (adt.split("::")[-1], a, "is accompanied by" if ok else "is NOT accompanied by", partner, a))
-        ctx.count("co-mutation-triggers-%s%s" % (adt.split("::")[-1], tag), n)
-    ctx.floor("co-mutation-triggers-RLBuilder" + tag, 3)
-    ctx.floor("co-mutation-triggers-SparseBuilder" + tag, 1)
+    check_comutation(ctx, F, tag)
 
     # ---------------- R4 set_len only extends; observers are getters
     b = F.body(RB + "::set_len")
@@ -180,3 +164,25 @@ def check_config(ctx, F, tag):
     for g, p in getters.items():
         b = F.body(g)
         ctx.ob("C16.R4.observer-is-getter", g + tag, loc(b.raw["span"]), m(p, b.term_of_local(0)), "term-shape", "%s() = %s" % (g.split("::")[-1], tstr(b.term_of_local(0))), nontrivial=False)
+
+
+def check_comutation(ctx, F, tag, prefix="C16.R3"):
+    """A6: fields tied by a representation invariant are stored together on every path."""
+    for adt, a, partner in ((RB, "len", "run"), (SB, "len", "next")):
+        n = 0
+        for b in F.all_bodies():
+            trig = field_store_blocks(b, adt, a)
+            if not trig:
+                continue
+            part = [bi for bi, _, _ in field_store_blocks(b, adt, partner)]
+            storers = must_store_fns(F, adt, partner)
+            after_calls = [ci for ci, t in b.calls() if callee_name(t) in storers and t["args"] and core(b.term_of_operand(t["args"][0]))[:2] == ("param", 0)]
+            for k, (bi, si, st) in enumerate(trig):
+                n += 1
+                ok = comutated_ip(b, bi, part, after_calls)
+                ctx.ob(prefix + ".co-mutation", "%s|%s.%s~%s#%d%s" % (b.name, adt.split("::")[-1], a, partner, k, tag), loc(st["sp"]), ok, "co-mutation",
+                       "store to %s.%s %s a direct store to .%s on the same path (a callee counts only if it runs after the store and stores .%s on all of its paths)" % (adt.split("::")[-1], a, "is accompanied by" if ok else "is NOT accompanied by", partner, a))
+        ctx.count("co-mutation-triggers-%s%s" % (adt.split("::")[-1], tag), n)
+    ctx.floor("co-mutation-triggers-RLBuilder" + tag, 3)
+    ctx.floor("co-mutation-triggers-SparseBuilder" + tag, 1)
+
